@@ -3,6 +3,7 @@
 package checks
 
 import (
+	"crypto/rand"
 	"fmt"
 	"net/url"
 	"sort"
@@ -180,6 +181,18 @@ func buildOps() []hop {
 			return fmt.Sprint(len(s), len(b), err, derr, s == strings.ToUpper(s)), []string{s}
 		}, fmt.Sprint([]int{32, 0, 103}[a], []int{20, 0, 64}[a], nil, nil, true)})
 	}
+	// RandomSecret on the harness's position-coded stream: the secret must decode to one contiguous chunk of the
+	// stream of exactly the right length, and no stream byte may be handed out twice within one execution
+	for _, a := range []int{0, 2} {
+		a := a
+		ops = append(ops, hop{fmt.Sprintf("random-stream-%d", a), func() (string, []string) {
+			s, err := otp.RandomSecret(otp.Algorithm(a))
+			if err != nil {
+				return "error: " + err.Error(), nil
+			}
+			return posStream.claim(s, []int{20, 32, 64}[a]), []string{s}
+		}, "ok"})
+	}
 	q1, _ := ref.DecimalQuestion("12345678")
 	q2, _ := ref.DecimalQuestion("99999999999999999999")
 	ops = append(ops, hop{"helpers-a", func() (string, []string) {
@@ -243,4 +256,59 @@ func retainedChanged(list []retained) string {
 		}
 	}
 	return ""
+}
+
+// posReader is a random source whose byte at position i is a bijective function of i mod 256, so that the
+// position of every delivered byte can be read off a secret (an execution consumes fewer than 256 bytes).
+type posReader struct {
+	off     int
+	claimed [256]bool
+}
+
+var posStream = &posReader{}
+
+func posByte(i int) byte { return byte(i*131 + 89) }
+
+func (r *posReader) Read(p []byte) (int, error) {
+	for i := range p {
+		p[i] = posByte(r.off + i)
+	}
+	r.off += len(p)
+	return len(p), nil
+}
+
+func (r *posReader) reset() { *r = posReader{} }
+
+// install makes the stream the process's cryptographic random source (crypto/rand.Reader).
+func (r *posReader) install() { rand.Reader = r }
+
+func (r *posReader) claim(secret string, n int) string {
+	v, b := ref.B32Classify(secret)
+	if v != ref.MustAccept || secret != ref.B32Encode(b) {
+		return "bad: not canonical unpadded upper-case base32: " + secret
+	}
+	if len(b) != n {
+		return fmt.Sprintf("bad: %d bytes, want %d", len(b), n)
+	}
+	p := -1
+	for i := 0; i < 256; i++ {
+		if posByte(i) == b[0] {
+			p = i
+		}
+	}
+	for i := range b {
+		if b[i] != posByte(p+i) {
+			return fmt.Sprintf("bad: byte %d of the secret (%#x) is not the stream byte that follows its first byte (stream position %d): not an unmodified chunk of the random source", i, b[i], p+i)
+		}
+	}
+	if p+n > r.off {
+		return fmt.Sprintf("bad: the secret holds stream positions %d..%d but only %d bytes were delivered", p, p+n-1, r.off)
+	}
+	for i := p; i < p+n; i++ {
+		if r.claimed[i%256] {
+			return fmt.Sprintf("bad: stream byte %d was handed out in two secrets", i)
+		}
+		r.claimed[i%256] = true
+	}
+	return "ok"
 }
